@@ -151,6 +151,31 @@ static std::string judge(const std::string& body, int ctx, size_t pad, Case& c) 
       if (std::string(target.data(), target.size()) != "12345") return "on-demand key: wrong slice " + printable(std::string(target.data(), target.size()), 60);
       return "";
     }
+    case 6: {  // on-demand scan that has to step OVER this literal (a member name before the wanted, longer key)
+      std::string wanted(body.size() + 9, 'w');
+      std::string text = padding + "{" + lit + ":0,\"" + wanted + "\":12345,\"yy\":{}}";
+      std::unique_ptr<char[]> buf(new char[text.size()]);
+      memcpy(buf.get(), text.data(), text.size());
+      JsonPointer jp;
+      jp /= JsonPointerNode(wanted);
+      sonic_json::StringView target;
+      ParseResult r = GetOnDemand(sonic_json::StringView(buf.get(), text.size()), jp, target);
+      if (e.accept) {
+        if (e.bytes == wanted) return "";
+        if (r.Error() != kErrorNone) {
+          snprintf(b, sizeof b, "on-demand scan over a valid key: wanted member not found (error %d)", (int)r.Error());
+          return b;
+        }
+        if (std::string(target.data(), target.size()) != "12345") return "on-demand scan over a valid key: wrong slice " + printable(std::string(target.data(), target.size()), 60);
+        return "";
+      }
+      // a member name with a malformed ESCAPE (unknown escape letter, bad \u digits, unpaired / misordered surrogate) is decoded
+      // while scanning and must make the lookup fail; raw control bytes in names without escapes are C11's latitude
+      if (e.code == kParseErrorEscapedFormat || e.code == kParseErrorEscapedUnicode) {
+        if (r.Error() == kErrorNone) return "on-demand scan stepped over a member name with a malformed escape and reported success";
+      }
+      return "";
+    }
     case 5: {  // the kernel, called directly
       for (auto& K : kDecoders) {
         std::string text = padding + lit + ",1]";
@@ -393,12 +418,12 @@ static void property(Src& s, Case& c) {
   // sometimes a second feature further on (two features: class not demanded when both are faults)
   if (s.coin(1, 10)) suf += feature;
   std::string body = pre + feature + suf;
-  int ctx = (int)s.index(6);
+  int ctx = (int)s.index(7);
   size_t pad = s.coin(1, 2) ? 0 : (size_t)s.pick(0, 70);
   c.note("body", body);
   c.note("ctx", std::to_string(ctx));
   c.note("pad", std::to_string(pad));
-  static const char* cn[] = {"root", "array", "key", "ondemand-key", "updatelazy-key", "kernel"};
+  static const char* cn[] = {"root", "array", "key", "ondemand-key", "updatelazy-key", "kernel", "ondemand-scan-over-key"};
   c.cls("feature:" + kind);
   c.cls(std::string("ctx:") + cn[ctx]);
   c.cls("offset%32=" + std::to_string((off + pad + 1) % 32 / 8 * 8) + "..");
@@ -425,7 +450,7 @@ static void direct(const Fields& f, Case& c) {
   }
   int ctx = field(f, "ctx") ? atoi(field(f, "ctx")->c_str()) : -1;
   size_t pad = field(f, "pad") ? (size_t)atoi(field(f, "pad")->c_str()) : 0;
-  for (int k = 0; k < 6; k++) {
+  for (int k = 0; k < 7; k++) {
     if (ctx >= 0 && ctx != k) continue;
     std::string m = judge(*body, k, pad, c);
     if (!m.empty()) c.fail(m + " | body=" + printable(*body, 300) + " ctx=" + std::to_string(k));
